@@ -253,9 +253,27 @@ def targeted_called(rnd):
 
 
 def targeted_capture(rnd):
-    if rnd.random() < 0.4:
+    k = rnd.random()
+    if k < 0.35:
         return targeted_called(rnd)
+    if k < 0.5:
+        return targeted_defaults(rnd)
     return targeted_reuse(rnd)
+
+
+def targeted_defaults(rnd):
+    """a stage lambda g that is moved under the lambda f of the operator before it (SelectMany / Select / Where fusions), where g
+    has a parameter DEFAULT (plain or keyword-only) mentioning an outer variable named like f's parameter - and nowhere else"""
+    pool = ["e", "j", "t"]
+    E, F, T = rnd.choice(pool), rnd.choice(pool), rnd.choice(["t", "q", "w"])
+    first = rnd.choice([f"SelectMany({E}.jets, lambda {F}: {F}.trks)", f"Select({E}.jets, lambda {F}: {F}.pt)", f"Where({E}.trks, lambda {F}: {F}.pt > 1)"])
+    val = f"{T}.pt" if not first.startswith("Select(") else T
+    dflt = rnd.choice([f"{E}.met", f"{E}.x + 1", f"Count({E}.jets)"])
+    g = rnd.choice([f"lambda {T}, *, m_={dflt}: {val} + m_", f"lambda {T}, m_={dflt}: {val} + m_", f"lambda {T}, /, m_={dflt}: {val} + m_", f"lambda {T}, *, m_={dflt}, n_=2: {val} + m_ + n_"])
+    op2 = rnd.choice(["Select", "Select", "Where"])
+    if op2 == "Where":
+        g = g.replace(": " + val + " + m_", ": " + val + " + m_ > 0")
+    return f"Select(EventDataset(), lambda {E}: {op2}({first}, {g}))"
 
 
 def targeted_reuse(rnd):
